@@ -144,6 +144,16 @@ def run_history(h):
                 fobj[('bad', st['b'])] = to_obj(T(bl['f']), pymc.CTLS)
             out = mcfam.with_time_limit(lambda: call_mc(bl['logic'], kobj, fobj[('bad', st['b'])], F=F), h.get('limit', 20.0))
             ev['out'] = {'exc': out[1]} if out[0] == 'exc' else {'ret': 'set'} if out[0] == 'ret' else {'skipped': 'timeout'}
+        elif st['op'] in ('editlabel', 'editedge'):
+            kobj, name, idx = kobjs[st['k'] - 1]
+            try:
+                if st['op'] == 'editlabel':
+                    lab = kobj.labels(name(st['s']))
+                    (lab.add if st['add'] else lab.discard)(st['a'])
+                else:
+                    kobj.add_edge(name(st['s']), name(st['d']))
+            except Exception as ex:
+                ev['err'] = type(ex).__name__
         elif st['op'] == 'mutate':
             if st['r'] in results:
                 v, kk = results[st['r']]
